@@ -162,6 +162,13 @@ pub trait DynSub {
     fn name(&self) -> &'static str;
     fn run(&self, ctx: &mut ShardCtx);
     fn replay(&self, case: &serde_json::Value) -> Result<(), String>;
+    /// Coverage-guided fuzzing entry: the fuzzer's bytes are the entropy source of the
+    /// sub-check's own proptest strategy (RngAlgorithm::PassThrough), so a fuzz input decodes to
+    /// one structured case; returns the decoded case (as JSON) and the check's verdict.
+    /// None = this sub-check is not driven by a strategy.
+    fn fuzz(&self, _data: &[u8], _tier: Tier) -> Option<(serde_json::Value, Classes, Result<(), String>)> {
+        None
+    }
 }
 
 struct Acc {
@@ -338,6 +345,32 @@ where
     fn replay(&self, case: &serde_json::Value) -> Result<(), String> {
         let c: T = serde_json::from_value(case.clone()).map_err(|e| format!("replay decode: {}", e))?;
         guarded(&self.check, &c)
+    }
+
+    fn fuzz(&self, data: &[u8], tier: Tier) -> Option<(serde_json::Value, Classes, Result<(), String>)> {
+        use proptest::strategy::ValueTree;
+        let config = Config { failure_persistence: None, ..Config::default() };
+        let rng = proptest::test_runner::TestRng::from_seed(RngAlgorithm::PassThrough, data);
+        let mut runner = TestRunner::new_with_rng(config, rng);
+        let strat = (self.strategy)(tier);
+        let tree = match strat.new_tree(&mut runner) {
+            Ok(t) => t,
+            Err(_) => return None,
+        };
+        let case = tree.current();
+        if let Some(k) = self.known {
+            if k(&case) {
+                return None;
+            }
+        }
+        let js = serde_json::to_value(&case).unwrap_or(serde_json::Value::Null);
+        let cl = (self.classify)(&case);
+        let r = guarded(&self.check, &case);
+        let r = match r {
+            Err(m) if m.starts_with("ENGINE") => Ok(()),
+            other => other,
+        };
+        Some((js, cl, r))
     }
 }
 
